@@ -1,0 +1,9 @@
+//go:build !verif
+
+package scheduler
+
+func verifPoint(int, *Scheduler, *ScheduledJob, int, int, int) {}
+
+func verifResultPoint(*Scheduler, *ScheduledJob, error) {}
+
+func verifWorkerPoint(int, chan<- jobResult, *ScheduledJob) {}
